@@ -19,7 +19,7 @@ struct RepPeer {
 }
 
 struct RepSocketBackend {
-    pub(crate) peers: scc::HashMap<PeerIdentity, RepPeer>,
+    pub(crate) peers: Arc<scc::HashMap<PeerIdentity, RepPeer>>,
     fair_queue_inner: Arc<Mutex<QueueInner<ZmqFramedRead, PeerIdentity>>>,
     socket_monitor: Mutex<Option<mpsc::Sender<SocketEvent>>>,
     socket_options: SocketOptions,
@@ -44,7 +44,7 @@ impl Socket for RepSocket {
     fn with_options(options: SocketOptions) -> Self {
         let mut fair_queue = FairQueue::new(true);
         let backend = Arc::new(RepSocketBackend {
-            peers: scc::HashMap::new(),
+            peers: Arc::new(scc::HashMap::new()),
             fair_queue_inner: fair_queue.inner(),
             socket_monitor: Mutex::new(None),
             socket_options: options,
@@ -102,7 +102,7 @@ impl MultiPeerBackend for RepSocketBackend {
         if let Some(monitor) = self.monitor().lock().as_mut() {
             let _ = monitor.try_send(SocketEvent::Disconnected(peer_id.clone()));
         }
-        self.peers.remove_sync(peer_id);
+        crate::util::remove_peer_entry(&self.peers, peer_id);
         self.fair_queue_inner.lock().remove(peer_id);
     }
 }
